@@ -24,6 +24,7 @@ func (db *DB) SetMode(m mode.Mode) error {
 	}
 
 	var err error
+	old := db.mode
 	switch {
 	case m.NoMetabase():
 		db.boltDB = nil
@@ -37,7 +38,16 @@ func (db *DB) SetMode(m mode.Mode) error {
 	}
 
 	if err != nil {
-		return fmt.Errorf("can't set metabase mode (old=%s, new=%s): %w", db.mode, m, err)
+		// The previous database instance is closed by now and there is no
+		// usable new one: serve nothing until the next successful switch
+		// instead of keeping (or, see Open, partially applying) a mode the
+		// database is not in.
+		if db.boltDB != nil {
+			_ = db.boltDB.Close()
+			db.boltDB = nil
+		}
+		db.mode = mode.DegradedReadOnly
+		return fmt.Errorf("can't set metabase mode (old=%s, new=%s): %w", old, m, err)
 	}
 
 	db.mode = m
